@@ -748,6 +748,11 @@ pub fn fuzz_domain(c: &mut Case) -> bool {
     true
 }
 
+/// cases decoded from byte strings (see `engine::decoded_strategy`)
+pub fn bytes_strategy(_tier: Tier) -> BoxedStrategy<Case> {
+    decoded_strategy(fuzz_domain)
+}
+
 pub fn property() -> Property {
     Property {
         id: "C01",
@@ -759,7 +764,7 @@ pub fn property() -> Property {
         ],
         both_profiles: false,
         subs: vec![
-            sub_fuzz("graph/history", 400_000, 4_000_000, strategy, run, fuzz_domain),
+            sub_fuzz("graph/history", 400_000, 4_000_000, strategy, run, fuzz_domain), sub("graph/history-from-bytes", 200_000, 4_000_000, bytes_strategy, run),
             sub("graph/u8-capacity", 12_000, 300_000, capacity_strategy, run),
         ],
     }
